@@ -1598,3 +1598,48 @@ def run(idx, rep, tier):
     from .shared import share
     from .c17 import r3_case as _c17r3c
     share(k, 'C05.R25', 'restrictions of the accepted key are found whatever their spelling (= clause of C17.R3): check_key_permission / get_key_option look options up by lower-cased name, as the parser stores them (no-X11-forwarding)', _c17r3c, keep=lambda key: 'lookup by lower-cased name' in key)
+    rep.rule('C05.R26', 'certificate source-address: the restriction is '
+             'applied whenever the critical option is present - the test in '
+             '_validate_openssh_certificate is "is not None", not '
+             'truthiness: an option that decodes to an empty list matches '
+             'no address (sshd refuses), it does not mean "no restriction"')
+    _fv = k.func('connection.SSHServerConnection._validate_openssh_certificate')
+    _gv = k.cfg(_fv)
+    _at = [a for a in _gv.nodes if a.kind == 'atom' and a.ast is not None and
+           'allowed_addresses' in names_read(a.ast) and not any(
+               isinstance(x, ast.comprehension) for x in ast.walk(a.ast))]
+    _at = [a for a in _at if not is_call(a.ast, 'any')]
+    rep.floor('C05.R26', 'tests of the source-address option', len(_at), 1)
+    for _a in _at:
+        _ok = isinstance(_a.ast, ast.Compare) and any(
+            isinstance(c, ast.Constant) and c.value is None
+            for c in _a.ast.comparators)
+        if isinstance(_a.ast, ast.UnaryOp) or is_call(_a.ast, 'any'):
+            continue
+        rep.check(_ok, 'C05.R26',
+                  key(_fv, 'empty source-address list still restricts'),
+                  'allowed_addresses is not None',
+                  f'`if {norm(_a.ast)}`: a certificate whose critical '
+                  'source-address option is an empty list is accepted from '
+                  'every address', k.loc(_fv, _a))
+    rep.rule('C05.R27', 'a key held by an ssh-agent signs as that key: '
+             'SSHAgentKeyPair.sign / sign_async ask the agent with '
+             'self.key_public_data (the blob the agent lists), not with '
+             'self.public_data, which becomes the certificate blob once '
+             'set_certificate() attached one the agent does not hold')
+    _na = 0
+    for _q in ('agent.SSHAgentKeyPair.sign_async', 'agent.SSHAgentKeyPair.sign'):
+        if not k.idx.has_func(_q):
+            continue
+        _fa = k.func(_q)
+        for _n, _c in k.calls_named(_fa, 'sign', 'self._agent'):
+            _na += 1
+            rep.check(bool(_c.args) and dotted(_c.args[0]) ==
+                      'self.key_public_data', 'C05.R27',
+                      key(_fa, 'agent asked for the key it holds'),
+                      'self._agent.sign(self.key_public_data, ...)',
+                      f'`{norm(_c)[:70]}`: with client_keys=[(agent_key, '
+                      'cert)] the agent is asked to sign with the '
+                      'certificate blob, declines, and a client holding a '
+                      'valid certificate is refused', k.loc(_fa, _n))
+    rep.floor('C05.R27', 'agent sign requests', _na, 1)
